@@ -261,9 +261,40 @@ def run_grid(shards, procs):
     return res
 
 
+def grammar_tables():
+    """The terminals, rules and options serialised inside _generated_parser.py (DATA / MEMO), canonicalised."""
+    from traits.observation import _generated_parser as g
+
+    def deref(x):
+        return g.MEMO[x["@"]] if isinstance(x, dict) and "@" in x else x
+
+    lc = g.DATA["parser"]["lexer_conf"]
+    pc = g.DATA["parser"]["parser_conf"]
+    terms = []
+    for t in lc["terminals"]:
+        t = deref(t)
+        pat = t["pattern"]
+        terms.append([str(t["name"]), pat["__type__"], pat["value"], sorted(pat.get("flags", [])), t.get("priority", 0)])
+    rules = []
+    for r in pc["rules"]:
+        r = deref(r)
+        exp = [[str(sym["name"]), sym["__type__"], bool(sym.get("filter_out", False))] for sym in r["expansion"]]
+        o = r.get("options") or {}
+        rules.append([str(r["origin"]["name"]), exp, bool(o.get("expand1", False)), r.get("alias"),
+                      bool(o.get("keep_all_tokens", False))])
+    opts = g.DATA["options"]
+    return {"terminals": terms, "rules": rules, "ignore": list(lc["ignore"]), "lexer_type": lc["lexer_type"],
+            "g_regex_flags": lc["g_regex_flags"], "start": list(pc["start"]), "parser_type": pc["parser_type"],
+            "options": {k: opts.get(k) for k in ("keep_all_tokens", "maybe_placeholders", "regex", "lexer", "parser",
+                                                  "start", "postlex", "transformer", "tree_class", "priority")},
+            "n_rules_memo": len(g.DATA["rules"])}
+
+
 def main():
     req = dlib.load()
-    if req["mode"] == "cases":
+    if req["mode"] == "grammar":
+        dlib.dump(grammar_tables())
+    elif req["mode"] == "cases":
         dlib.dump([run_case(c) for c in req["cases"]])
     else:
         dlib.dump(run_grid(req["shards"], int(req.get("procs", 8))))
